@@ -768,7 +768,7 @@ mod v_socket_dhcpv4 {
     // emitted by the next `dispatch`; `retry` is incremented only after `emit` returned Ok.  So retry == 0 <=> no
     // REQUEST has reached the device.  An ACK carrying the DISCOVER's xid is accepted in that window (RFC 2131
     // figure 5: DHCPACK is discarded in SELECTING), i.e. a configuration is reported although no request was sent.
-    // @harness props=C18 cfg=KD tier=q kind=finding to=1200 mem=8 unwind=12 opts=nomem,fs320 covers=1 funcs=dhcpv4::Socket::process bounds=layout_{type,server-id,lease,mask,router};_every_field_value_symbolic;_any_client_state_with_INV_dhcp
+    // @harness props=C18 cfg=KD tier=q to=1200 mem=8 unwind=12 opts=nomem,fs320 covers=1 funcs=dhcpv4::Socket::process bounds=layout_{type,server-id,lease,mask,router};_every_field_value_symbolic;_any_client_state_with_INV_dhcp
     #[kani::proof]
     pub(crate) fn finding_dhcp_ack_before_request() {
         let o = process_step(L_FULL, true);
@@ -987,7 +987,7 @@ mod v_socket_dhcpv4 {
     // `initial_request_timeout << (retry / 2)` (Duration::shl = u64 <<): a legal RetryConfig with request_retries > 128
     // reaches a shift amount of 64 => arithmetic-overflow panic (builds with overflow checks) / wrapped shift amount
     // (release builds); from retry 84 on (5 s << 42) the timeout already wraps around silently.
-    // @harness props=C18 cfg=KD tier=q kind=finding to=600 mem=6 unwind=12 opts=nomem covers=1 funcs=dhcpv4::Socket::dispatch;time::Duration::shl bounds=Requesting_state;_request_retries_any_u16;_default_timeouts
+    // @harness props=C18 cfg=KD tier=q to=600 mem=6 unwind=12 opts=nomem covers=1 funcs=dhcpv4::Socket::dispatch;time::Duration::shl bounds=Requesting_state;_request_retries_any_u16;_default_timeouts
     #[kani::proof]
     pub(crate) fn finding_dhcp_request_backoff_shift() {
         dhcp_env!(dev, iface, cx, now, mac, 1514);
@@ -1266,7 +1266,7 @@ mod v_socket_dhcpv4 {
     }
 
     // the replayable history behind `finding_dhcp_ack_before_request`: DISCOVER, OFFER, ACK without any REQUEST
-    // @harness props=C18 cfg=KD tier=t kind=finding to=3000 mem=12 unwind=12 opts=nomem,fs320 covers=1 funcs=dhcpv4::Socket::new;dhcpv4::Socket::dispatch;dhcpv4::Socket::process;dhcpv4::Socket::poll bounds=history_new();dispatch;server_message;server_message;dispatch;_both_messages_layout_{type,server-id,lease,mask,router}_all_values_symbolic;_default_retry_config
+    // @harness props=C18 cfg=KD tier=t to=3000 mem=12 unwind=12 opts=nomem,fs320 covers=1 funcs=dhcpv4::Socket::new;dhcpv4::Socket::dispatch;dhcpv4::Socket::process;dhcpv4::Socket::poll bounds=history_new();dispatch;server_message;server_message;dispatch;_both_messages_layout_{type,server-id,lease,mask,router}_all_values_symbolic;_default_retry_config
     #[kani::proof]
     pub(crate) fn finding_dhcp_history_ack_without_request() {
         let (configured, _expired, _rebinding, offer_taken) = history(false);
